@@ -192,6 +192,16 @@ def main():
     need(r"fn\s+get_child_result", pr, "process::get_child_result")
     facts.append("Definition child_result_must_be_object : bool := %s." %
                  ("true" if re.search(r"is_object\s*\(", pr) else "false"))
+    # the decision of get_child_result that Cli.classify_child models: both pipes collected to the end,
+    # exit status first, then the whole of stdout as one JSON document, an object, of the strict result type
+    prs = re.sub(r"\s+", "", pr)
+    facts.append("Definition child_result_decision_shape : bool := %s." % ("true" if (
+        "letoutput=child.wait_with_output().await?;" in prs
+        and "ifoutput.status.success(){letresult:Option<ObjFuncChildResult>=serde_json::from_slice(&output.stdout).ok()"
+            ".filter(|value:&serde_json::Value|value.is_object()).and_then(|value|serde_json::from_value(value).ok());"
+            "matchresult{Some(result)=>Ok(result.objFuncVal),None=>Err(Error::ObjFuncProcInvalidOutput(" in prs
+        and "}else{" in prs and "Err(Error::ObjFuncProcFailed(" in prs
+        and "#[serde(deny_unknown_fields)]structObjFuncChildResult{objFuncVal:Option<f64>,}" in prs) else "false"))
     guard = re.search(r"impl\s+Drop\s+for\s+(\w+)", pr)
     guard_used = bool(guard and re.search(r"let\s+_\w*\s*=\s*%s\s*[\(\{]" % guard.group(1), pr))
     facts.append("Definition process_group_guard_present : bool := %s." % ("true" if guard_used else "false"))
@@ -211,6 +221,22 @@ def main():
                  ("true" if (ebody.count("tokio::select!") + ebody.count("select!{") >= 1 and "abort" in ebody and "timeout" in ebody.lower() and "child_result" in ebody) else "false"))
     facts.append("Definition stderr_logged_lossily : bool := %s." %
                  ("true" if (re.search(r"from_utf8_lossy", pr) and not re.search(r"String::from_utf8\([^)]*\)\s*\.unwrap\(\)", pr)) else "false"))
+
+    # sync_launch: the writer loop (Writer.v) and the select loop (Sync.v)
+    sl = strip_comments(read_nontest("sync_launch.rs"))
+    sls = re.sub(r"\s+", "", sl)
+    facts.append("Definition sync_launch_drains_writer_before_return : bool := %s." %
+                 ("true" if "res=&mutlaunch_fut=>{detailed_reporting_fut.await?;returnres;}" in sls else "false"))
+    facts.append("Definition writer_is_row_then_best_on_strict_improvement : bool := %s." % ("true" if (
+        "whileletSome(item)=item_receiver.next().await{detailed_report_file.write_all(item.to_csv_row().as_bytes()).await?;"
+        "ifletSome(item_obj_func_val)=item.obj_func_val{letnew_best_seen=ifletSome(refbest_seen)=best_seen{"
+        "letbest_obj_func_val=best_seen.obj_func_val.unwrap();item_obj_func_val<best_obj_func_val}else{true};"
+        "ifnew_best_seen{write_best_seen_file(&item.input_val,file_info).await?;best_seen=Some(item);}};}" in sls) else "false"))
+    wb = fn_body(sl, "write_best_seen_file", "sync_launch::write_best_seen_file")
+    facts.append("Definition best_seen_file_is_truncated_then_written : bool := %s." % ("true" if (
+        wb.startswith("letmutbest_seen_file=File::create(&file_info.best_seen_file_path).await")
+        and "best_seen_file.write_all(value.to_string().as_bytes()).await?;" in wb
+        and "OpenOptions" not in wb) else "false"))
 
     dr = strip_comments(read_nontest("detailed_report.rs"))
     m = need(r'fn\s+get_csv_header_row\(\)\s*->\s*&\'static\s+str\s*\{\s*"([^"]*)"', dr, "CSV header")
